@@ -44,7 +44,8 @@ def directed(rng: random.Random) -> dict:
                        "argument_names_later_nearer_label", "named_scope_in_body", "many_applications", "block_declares_name_used_by_body", "block_expanded_several_times",
                        "defined_inside_a_scope_applied_outside", "label_in_conditional_applied_twice",
                        "redefined_between_applications", "named_like_a_mnemonic",
-                       "applies_helper_defined_later", "block_forwarded_by_wrapper"])
+                       "applies_helper_defined_later", "block_forwarded_by_wrapper",
+                       "argument_is_the_parameters_own_name", "nested_block_macros_sharing_a_parameter_name"])
     expect_reject = False
     expect_bytes = None
     if kind == "capture_eager":
@@ -85,6 +86,23 @@ def directed(rng: random.Random) -> dict:
                                                                   {"k": "ins", "m": "sta", "shape": "dir", "sz": "w", "e": E("paddr")}]},
                  {"k": "call", "n": nm, "as": [E(0x1234)]}, {"k": "ins", "m": "inc", "shape": "dir", "sz": "w", "e": E(0x2000)}, {"k": "call", "n": nm, "as": [E("laterq")]},
                  {"k": "block", "b": [{"k": "call", "n": nm, "as": [E("laterq", "+", 1)]}]}, {"k": "label", "n": "laterq"}, db(0x60)]
+    elif kind == "argument_is_the_parameters_own_name":
+        # the running-offset idiom: the caller's variable has the parameter's name, is passed as it is and assigned again after the application;
+        # the body sees the value the argument had at the call site
+        body += [{"k": "macro", "n": "entryq", "ps": ["offsetq", "sizeq"], "b": [{"k": "data", "d": "dw", "es": [E("offsetq")]}, db(E("sizeq"))]},
+                 {"k": "assign", "n": "offsetq", "e": E(0)}, {"k": "call", "n": "entryq", "as": [E("offsetq"), E(4)]},
+                 {"k": "assign", "n": "offsetq", "e": E("offsetq", "+", 4)}, {"k": "call", "n": "entryq", "as": [E("offsetq"), E(0x10)]},
+                 {"k": "assign", "n": "offsetq", "e": E("offsetq", "+", 0x10)}, {"k": "block", "b": [{"k": "call", "n": "entryq", "as": [E("offsetq"), E(2)]}]},
+                 {"k": "assign", "n": "offsetq", "e": E(0x999)}]
+        expect_bytes = bytes([0, 0, 4, 4, 0, 0x10, 0x14, 0, 2])
+    elif kind == "nested_block_macros_sharing_a_parameter_name":
+        # two block-taking macros whose block parameters have the same name, one applied inside the block argument of the other (and one inside
+        # its own block argument)
+        body += [{"k": "macro", "n": "with_a16q", "ps": ["pbody"], "b": [db(0xC2, 0x20), {"k": "splice", "n": "pbody"}, db(0xE2, 0x20)]},
+                 {"k": "macro", "n": "with_xy16q", "ps": ["pbody"], "b": [db(0xC2, 0x10), {"k": "splice", "n": "pbody"}, db(0xE2, 0x10)]},
+                 {"k": "call", "n": "with_a16q", "as": [{"blk": [db(0xA9), {"k": "call", "n": "with_xy16q", "as": [{"blk": [db(0xA2)]}]}, db(0x8D)]}]},
+                 {"k": "call", "n": "with_a16q", "as": [{"blk": [{"k": "call", "n": "with_a16q", "as": [{"blk": [db(0xEA)]}]}]}]}]
+        expect_bytes = bytes([0xC2, 0x20, 0xA9, 0xC2, 0x10, 0xA2, 0xE2, 0x10, 0x8D, 0xE2, 0x20, 0xC2, 0x20, 0xC2, 0x20, 0xEA, 0xE2, 0x20, 0xE2, 0x20])
     elif kind == "applies_helper_defined_later":
         # a macro whose body applies a helper that is defined further down (before the first application): applications are expanded when
         # they are met, not when the macro is defined
